@@ -75,13 +75,12 @@ def keyfn_of(run):
 
 def run(ctx):
     sd = os.path.join(vf.SPEC, SPEC_DIR)
-    ctx.tlc_mc("AddrSpace.tla", "MC_AddrSpace.cfg", spec_dir=sd, workers=2, timeout=600,
-               require_actions=["Create"])
-    ctx.tlc_mc("AddrSpace.tla", "MC_AddrSpace_impl.cfg", spec_dir=sd, workers=2, timeout=600)
-    ctx.tlc_mc("AddrSpace.tla", "MC_AddrSpace_mutant_descindex.cfg", spec_dir=sd, workers=2,
-               expect_violation=True, timeout=300)
-    ctx.tlc_mc("AddrSpace.tla", "MC_AddrSpace_mutant_mask.cfg", spec_dir=sd, workers=2,
-               expect_violation=True, timeout=300)
+    sc.mc_parallel(ctx, sd, "AddrSpace.tla", [
+        ("MC_AddrSpace.cfg" if ctx.tier == "quick" else "MC_AddrSpace_big.cfg",
+         dict(workers=2, timeout=900, require_actions=["Create"])),
+        ("MC_AddrSpace_impl.cfg", dict(workers=1, timeout=600)),
+        ("MC_AddrSpace_mutant_descindex.cfg", dict(workers=1, expect_violation=True, timeout=300)),
+        ("MC_AddrSpace_mutant_mask.cfg", dict(workers=1, expect_violation=True, timeout=300))])
     runs = matrix(ctx.tier)
     if ctx.tier != "quick":
         # dense chunk map: only with the malloc mark-sweep build, where it builds
